@@ -651,6 +651,7 @@ fn c06_group(g: &C06Group) -> (Vec<Violation>, CaseOut) {
     let mut out = CaseOut::default();
     let mut v = vec![];
     let n = g.base.n();
+    let (mut pad_ones, mut pad_total) = (0u64, 0u64);
     // counts[(owner, w)][value] = (ones, total)
     let mut counts: BTreeMap<(usize, usize), [(u64, u64); 2]> = BTreeMap::new();
     let canary = g.base.inputs.iter().any(|i| i.len() >= 128) && !g.balance_wide;
@@ -729,6 +730,35 @@ fn c06_group(g: &C06Group) -> (Vec<Violation>, CaseOut) {
                 out.count("own_share_vectors_scanned", 1);
             }
         }
+        if canary || g.balance_wide {
+            // every one-time pad bit of the half-authenticated AND is fresh: no run of more than 64
+            // equal pads in the sequence a party used (a constant pad over one call of 80 triples would
+            // let the receiver strip it), and the pads are balanced over the whole group
+            for p in 0..n {
+                let pads: Vec<bool> = run.res.probes[p].iter().filter(|x| x.site == "haand_pad").map(|x| x.data.first().copied().unwrap_or(0) != 0).collect();
+                if pads.len() < 80 {
+                    continue;
+                }
+                let mut longest = 0;
+                let mut cur = 0;
+                for i in 0..pads.len() {
+                    cur = if i > 0 && pads[i] == pads[i - 1] { cur + 1 } else { 1 };
+                    longest = longest.max(cur);
+                }
+                pad_ones += pads.iter().filter(|b| **b).count() as u64;
+                pad_total += pads.len() as u64;
+                out.count("haand_pad_sequences_tested", 1);
+                if longest > 64 {
+                    v.push(viol(
+                        "one-time-pad-reused",
+                        "one-time-pad-reused:haand",
+                        format!("party {p}: {longest} consecutive half-authenticated-AND pad bits are equal (of {} used in this execution)", pads.len()),
+                        &sv,
+                    ));
+                    return (v, out);
+                }
+            }
+        }
         if canary {
             // no run of 128 plain input bits in the party's traffic
             for p in 0..n {
@@ -759,6 +789,14 @@ fn c06_group(g: &C06Group) -> (Vec<Violation>, CaseOut) {
                 }
                 out.count("canary_messages_scanned", run.res.transcript.iter().filter(|m| m.from == p).count() as u64);
             }
+        }
+    }
+    if pad_total >= 1000 {
+        let dev = (pad_ones as f64 - pad_total as f64 / 2.0).abs();
+        let bound = 6.5 * (pad_total as f64).sqrt() / 2.0;
+        if dev > bound {
+            v.push(viol("one-time-pad-biased", "one-time-pad-biased:haand", format!("{pad_ones} of {pad_total} half-authenticated-AND pad bits are 1; allowed deviation {bound:.0}"), &sv));
+            return (v, out);
         }
     }
     if !canary {
@@ -794,7 +832,7 @@ impl Check for C06 {
         "exploration"
     }
     fn rule(&self) -> String {
-        "each case fixes a configuration (n in {2,3}) and executes it N times per input value (N=200 quick, 2000 thorough; fresh coins and schedule seed each) with all input bits 0 resp. 1; from the transcript alone, for every input wire: b = decoded 'masked inputs' bit xor the bits the other parties sent to the owner in 'wire shares'; the count of b=1 must lie within 6.5 sigma of N/2 for input 0 and input 1 alike. Canary cases: a party with 128 random input bits, its outgoing traffic scanned for the run as 128 bool bytes, as 16 packed bytes in both bit orders and as a run in the decoded bool stream. Wide configurations (129 input wires) run under the balance test too, and there the vector of a party's own shares of the masks of its own input wires must not appear in its traffic. All probed global keys, and all own-mask vectors of >= 64 bits, must be pairwise distinct over all runs and parties. evaluations = simulated runs; distinct = (configuration, run) coins".into()
+        "each case fixes a configuration (n in {2,3}) and executes it N times per input value (N=200 quick, 2000 thorough; fresh coins and schedule seed each) with all input bits 0 resp. 1; from the transcript alone, for every input wire: b = decoded 'masked inputs' bit xor the bits the other parties sent to the owner in 'wire shares'; the count of b=1 must lie within 6.5 sigma of N/2 for input 0 and input 1 alike. Canary cases: a party with 128 random input bits, its outgoing traffic scanned for the run as 128 bool bytes, as 16 packed bytes in both bit orders and as a run in the decoded bool stream. Wide configurations (129 input wires) run under the balance test too, and there the vector of a party's own shares of the masks of its own input wires must not appear in its traffic, and the one-time pads of the half-authenticated AND (probed) must be fresh: no run of more than 64 equal pad bits, balanced overall. All probed global keys, and all own-mask vectors of >= 64 bits, must be pairwise distinct over all runs and parties. evaluations = simulated runs; distinct = (configuration, run) coins".into()
     }
     fn assumptions(&self) -> Vec<String> {
         vec![
@@ -833,15 +871,18 @@ impl Check for C06 {
                 insts.push(format!("i{p}.0>{}", 128 + p));
                 inputs.push(1);
             }
+            // 16 AND gates, so that one half-authenticated-AND call covers 80 leaky triples
             let base = 129 + n - 1;
-            insts.push(format!("a0,{}>{}", 129, base));
-            insts.push(format!("x{},5>{}", base, base + 1));
+            for g in 0..16 {
+                insts.push(format!("a{},{}>{}", g, 129, base + g));
+            }
+            insts.push(format!("x{},{}>{}", base, base + 1, base + 16));
             spec.circ = CircSpec {
                 inputs,
                 insts,
-                outs: vec![base as u32 + 1],
-                max_reg: base + 2,
-                and_ops: 1,
+                outs: vec![base as u32 + 16],
+                max_reg: base + 17,
+                and_ops: 16,
             };
             spec.inputs = spec.circ.inputs.iter().map(|k| "0".repeat(*k)).collect();
             spec.p_out = (0..n).collect();
